@@ -29,6 +29,17 @@ CLAIMED["C19"] = dict(
     note="Trusted: the library data files, numpy.polyfit/polyval. Lists as query type are not claimed (the property quantifies over scalars, arrays, Series). "
          "Known finding: hydrogen slope vs stored derivative.",
     ref="DESIGN.md 4/C19")
+CLAIMED["C05"] = dict(
+    technique="model-based PBT of the Newton driver with scripted iteration histories + fault-injected end-to-end runs + generated run histories on one net object",
+    text="Exploration: (1) the iteration driver is exercised with tens of thousands of generated per-iteration error/residual scripts "
+         "(incl. NaN/inf, both damping strategies) through its real entry point and the verdict is checked against the script; (2) generated "
+         "hydraulic and heating nets in all four modes with injected faults (absurd loads, iteration limits 0..3, zero tolerances, NaN "
+         "parameters, contradictory controllers, no supply) - every stage is recorded by wrapping newton_raphson from outside; post-state after "
+         "return (converged flag, finite results) and after raise (exception type, flag, no number in any result table); (3) histories of "
+         "successful and failing runs on one net object.",
+    note="Trusted: the outside wrappers do not change behaviour. Documented input rejections (UserWarning) are not counted as non-convergence. "
+         "Two known findings (duplicate controlled junction; bidirectional+automatic restore) are suppressed by narrow signatures.",
+    ref="DESIGN.md 4/C05")
 NOT_YET = {}
 
 def main():
